@@ -42,6 +42,8 @@ def strategy(tier):
 
 
 def evaluate(case):
+    if "sectioned" in case:
+        return eval_sectioned(case)
     if "exact_length" in case:
         from vlib import longlist
 
@@ -60,6 +62,52 @@ def extra(tier, seed, rep):
     from vlib import longlist
 
     longlist.run_exact_lengths(rep, Eval)
+    for k in range(len(SECTIONED)):
+        rep.add_eval({"sectioned": k}, eval_sectioned({"sectioned": k}))
+    rep.exhaustive_parts.append(f"{len(SECTIONED)} long listings of several sections (a small one, more than a thousand instructions, a last one), the stream asked for with rules that occur early / late / never, in both search modes")
+
+
+# (instructions per section, the rule whose answer travels with the stream)
+SECTIONED = [((30, 1500, 40), "push"), ((30, 1500, 40), "hlt"), ((1200, 1100, 5), "push"), ((5, 2500, 1200, 3), "mov"), ((30, 1500, 40), "zzzzzzzz")]
+
+
+def eval_sectioned(case):
+    """The stream is the encoding of the whole instruction list whichever rule is being matched and however the search is asked to
+    stop: a listing with `Disassembly of section` headers after more than a thousand instructions, rules that occur in the first
+    section / only in the last / nowhere, first-match and all-matches."""
+    from vlib.model import stream_text
+    from vlib.render import HEADER, inst_line
+
+    ev = Eval()
+    sizes, rule = SECTIONED[case["sectioned"]]
+    lines = list(HEADER[:3])
+    NV = []
+    addr = 0x401000
+    for si, n in enumerate(sizes):
+        lines += ["", f"Disassembly of section {['.init', '.text', '.fini', '.text.late'][si % 4]}:", "", f"{addr:016x} <sec{si}>:"]
+        for q in range(n):
+            last = si == len(sizes) - 1 and q == n - 1
+            m, ops = ("hlt", []) if last else ("push", ["%rbp"]) if q == 0 and si == 0 else ("mov", ["%rax", "%rbx"]) if q % 89 == 7 else ("nop", [])
+            lines.append(inst_line(format(addr, "x"), m, ops))
+            NV.append((format(addr, "x"), m, ops))
+            addr += 1 + q % 3
+    text = "\n".join(lines) + "\n"
+    want = stream_text(NV)
+    doc = jasm_io.make_doc([rule])
+    ev.subcases = 0
+    for search in ("first", "all"):
+        r = jasm_io.match(doc, text, mode="str", search=search)
+        ev.subcases += 1
+        if r[0] == "inconclusive":
+            ev.inconclusive += 1
+        elif r[0] != "ok":
+            ev.dev("exception", sectioned=case["sectioned"], search=search, error=list(r[1:]))
+        elif r[1] != want:
+            ev.dev("sectioned-listing-stream-differs", sectioned=case["sectioned"], rule=rule, search=search, expected_records=len(NV), observed_records=r[1].count("|"))
+    ev.tags = ["sectioned-long-listing"]
+    ev.nontrivial = True
+    ev.keys = [("sectioned", case["sectioned"])]
+    return ev
 
 
 def _evaluate(case):
